@@ -17,7 +17,7 @@ use crate::obs::guard;
 pub static DEF: PropDef = PropDef {
     id: "C17",
     level: "exploration",
-    rule: "each case: one hostile header — element type in {Binary, Utf8, UnsignedInt, raw tag (unknown id, tolerated), master} x declared size in {0, 1, M-1, M, M+1, 2M, 2^20, 2^32, 4*10^9, 4*10^9+1, 2^40, 2^56-2, random} encoded in a random vint width that can hold it x position {root, inside a known-size master (with and without oversize tolerance), inside an unknown-size master} x payload {absent, a few bytes, complete when small} x size limit M in {0, 5, 4096, 64 KiB, 1 MiB, default 4*10^9 (declared sizes <= 64 MiB only)} x initial capacity {16, 4096, 65536} x all 8 tolerance subsets — parsed by the real iterator (next() until the first error/None, then one try_recover() and next()). Around every API call the counting allocator measures peak live-heap growth and the largest single request on that thread; both must stay <= 16*max(B, capacity, 64 KiB) + 1 MiB where B = declared size if it is within the limit, else 0; an element declaring more than the limit must not be returned as an item nor reach its payload (the call must end in InvalidTagSize or an earlier check's error: InvalidTagId / HierarchyError / OversizedChildElement / InvalidTagData); no panic or arithmetic overflow (overflow checks are on). distinct = (type, size class relative to M, width, position, limit, capacity, tolerance); non-trivial iff declared size > capacity.",
+    rule: "each case: one hostile header — element type in {Binary, Utf8, UnsignedInt, raw tag (unknown id, tolerated), master} x declared size in {0, 1, M-1, M, M+1, 2M, 2^20, 2^32, 4*10^9, 4*10^9+1, 2^40, 2^56-2, random} encoded in a random vint width that can hold it x position {root, inside a known-size master (with and without oversize tolerance), inside an unknown-size master} x payload {absent, a few bytes, complete when small} x size limit M in {0, 5, 4096, 64 KiB, 1 MiB, default 4*10^9 (declared sizes <= 64 MiB only)} x initial capacity {16, 4096, 65536} x all 8 tolerance subsets — parsed by the real iterator (next() until the first error/None, then one try_recover() and next()). Around every API call the counting allocator measures peak live-heap growth and the largest single request on that thread; both must stay <= 16*max(B, capacity, 64 KiB) + 1 MiB where, while the probed element is being handled, B = its declared size if within the limit, else 0, and afterwards (elements found in the random payload) B = M; an element declaring more than the limit must not be returned as an item nor reach its payload (the call must end in InvalidTagSize or an earlier check's error: InvalidTagId / HierarchyError / OversizedChildElement / InvalidTagData); no panic or arithmetic overflow (overflow checks are on). distinct = (type, size class relative to M, width, position, limit, capacity, tolerance); non-trivial iff declared size > capacity.",
     assumptions: &["the constant 16 is deliberately loose (today's worst legitimate ratio is about 3: old buffer + grown buffer + the payload copy handed to the tag); the faults this property is about are off by 10^3-10^12", "with the limit removed (None) nothing is promised; not exercised", "default-limit acceptance is only exercised up to 64 MiB declared"],
     cases_quick: 30_000,
     cases_thorough: 1_000_000,
@@ -163,6 +163,10 @@ fn run(c: &mut Case) {
     }
     // ---- drive: next() until error/None (max 6 calls), then try_recover + next
     let mut seen_elem_item = false;
+    // the tight, declared-size based bound applies while the probed element is being handled; afterwards (other
+    // elements found in the random payload) the general bound 16*max(M, capacity, 64 KiB) + 1 MiB applies
+    let bound_general: u64 = 16 * m.max(capacity as u64).max(65536) + (1 << 20);
+    let mut probe_done = false;
     let mut first_err: Option<ErrRec> = None;
     for step in 0..8 {
         it.get_mut().begin_api_call();
@@ -182,6 +186,7 @@ fn run(c: &mut Case) {
         });
         c.eval();
         c.count("api_calls_measured");
+        let bound = if probe_done { bound_general } else { bound };
         c.max("peak_growth_over_allowed_x1000", win.peak * 1000 / bound);
         if win.peak > bound || win.max_request > bound {
             c.violation(
@@ -198,6 +203,9 @@ fn run(c: &mut Case) {
             }
             Ok(Ok(Some(item))) => {
                 let at_elem = it.last_emitted_tag_offset() == elem_off;
+                if it.last_emitted_tag_offset() >= elem_off && !item.is_end() {
+                    probe_done = true;
+                }
                 if default_limit && at_elem {
                     // under the 4 GB default limit, whatever follows the probed element (random payload bytes read as
                     // children / siblings) may legitimately allocate a lot: stop once the probed element is through
@@ -221,6 +229,7 @@ fn run(c: &mut Case) {
                 }
             }
             Ok(Err(e)) => {
+                probe_done = true;
                 if first_err.is_none() && !recover {
                     c.count(&format!("rejected_{}", e.kind()));
                     // over the limit: must be the size error or an earlier check, never an attempt at the payload
